@@ -1,30 +1,107 @@
 (** C14 -- every service registration yields route commands fabio itself accepts
-    (registry/consul/routecmd.go build / parseURLPrefixTag, registry/consul/service.go makeConfig,
-    route/parse_new.go, route/table.go NewTable / addRoute).
+    (registry/consul/routecmd.go build / validate / parseURLPrefixTag, registry/consul/service.go
+    makeConfig, route/parse_new.go, route/table.go NewTable / addRoute).
     This file contains only statements, [exact], and [Print Assumptions].
 
     [intents env prefix g] are the values routecmd.build computes for the routing tags of a catalog
     entry g (service, route, destination, weight literal, plain tags, passed-through options);
-    [render_intent] is the line of text it writes for one of them; [build] = map render_intent o intents.
-    [isprint], [pweight], [canon], [glob_ok] stand for strconv.IsPrint, strconv.ParseFloat, url.Parse,
-    glob.Compile: the theorems hold whatever these libraries answer.
+    [render_intent] is the line of text it writes for one of them (since /repo d16ce3d the tags and
+    options stand between the quotes as they are); [validate] is its check of that line (no CR / LF,
+    NewTable accepts the line on its own); [build] = filter validate o map render_intent o intents.
+    [pweight], [canon], [glob_ok] stand for strconv.ParseFloat, url.Parse, glob.Compile: the theorems
+    hold whatever these libraries answer.
     [expressible] is the decidable domain (Model/RouteCmd.v): name, route and destination are
-    non-empty and free of white space, the path and the lower-cased host compile as globs, the destination parses as a URL,
-    the weight literal is accepted by ParseFloat, tags and options contain no double quote, tags no
-    comma / newline / outer space, a sole tag is not empty, and strconv.Quote leaves the joined tags and
-    options unchanged (true of all printable ASCII except the double quote and the backslash). *)
+    non-empty and free of white space, the path and the lower-cased host compile as globs, the
+    destination parses as a URL, the weight literal is accepted by ParseFloat, tags and options
+    contain no double quote, tags no comma / CR / LF / outer space, a sole tag is not empty.
+    The behaviour before d16ce3d (strconv.Quote, no validation) is [build_unrepaired]. *)
 From Coq Require Import String List NArith ZArith.
 From Fabio Require Import Lib.Outcome Lib.Bytes Model.WtF64 Model.TableCmd Model.RouteText Model.RouteCmd
                           Proofs.TableCmd Proofs.RouteCmd.
 Import ListNotations.
 Local Open Scope N_scope.
 
-(* (1), character level, full strength: every command routecmd.build makes from an expressible
-   entry is accepted by route.Parse as exactly one 'route add' definition that says what the entry
-   says: service, source, destination, weight, tags, options. *)
-Theorem C14_build_parse_denotes : forall isprint pweight canon glob_ok env prefix g,
-  expressible isprint pweight canon glob_ok env prefix g = true ->
-  Forall (fun i => exists d, parse pweight (render_intent isprint i) = Ok [d]
+(* ---------------- for ALL catalog entries ---------------- *)
+
+(* Every emitted command is accepted by NewTable on its own, is one line, and is the rendering of
+   one of the entry's routing tags. *)
+Theorem C14_emitted_accepted_alone : forall pweight canon glob_ok env prefix g c,
+  In c (build pweight canon glob_ok env prefix g) ->
+  is_ok (new_table pweight canon glob_ok c) = true /\ lacks 10 c = true /\ lacks 13 c = true
+  /\ exists i, In i (intents env prefix g) /\ c = render_intent i.
+Proof. exact emitted_accepted_alone. Qed.
+Print Assumptions C14_emitted_accepted_alone.
+
+(* Whatever the catalog entries are -- expressible or not -- the text makeConfig assembles from the
+   emitted commands of ANY set of services (all commands, reverse-sorted, newline-joined) is accepted
+   by NewTable: acceptance of each line alone implies acceptance of the whole (the parser is
+   line-local, and addRoute checks on a non-empty table nothing it does not check on the empty one).
+   The table holds the target of every emitted command and nothing else. *)
+Theorem C14_emitted_table_accepted : forall pweight canon glob_ok env prefix (regs : list reg),
+  let lines := sort_lines_desc (flat_map (build pweight canon glob_ok env prefix) regs) in
+  exists t, new_table pweight canon glob_ok (config_text lines) = Ok t
+    /\ (forall g c d, In g regs -> In c (build pweight canon glob_ok env prefix g) ->
+          parse_line pweight c = Ok (Some d) ->
+          exists url tg, canon (d_dst d) = Some url
+           /\ In (lower (fst (hostpath (d_src d))), snd (hostpath (d_src d)), tg) (flat t)
+           /\ same_target (d_svc d) url (w_clamp (d_w d)) (d_tags d) tg = true)
+    /\ (forall x, In x (flat t) -> exists g c d url, In g regs /\ In c (build pweight canon glob_ok env prefix g)
+           /\ parse_line pweight c = Ok (Some d) /\ canon (d_dst d) = Some url /\ x = trip d url).
+Proof. exact emitted_table_accepted. Qed.
+Print Assumptions C14_emitted_table_accepted.
+
+(* A dropped registration never removes another service's commands: what an entry emits depends
+   on that entry alone, and every emitted command is a line of the pushed text. *)
+Theorem C14_dropped_never_removes_others : forall pweight canon glob_ok env prefix (regs : list reg) g c,
+  In g regs -> In c (build pweight canon glob_ok env prefix g) ->
+  In c (sort_lines_desc (flat_map (build pweight canon glob_ok env prefix) regs)).
+Proof. exact dropped_never_removes_others. Qed.
+Print Assumptions C14_dropped_never_removes_others.
+
+(* History form: the catalog is read again on every health change.  The text pushed in a round
+   depends on that round's entries alone, whatever was registered, accepted or dropped before or
+   after, and the text of every round of every history is accepted by NewTable. *)
+Theorem C14_history_independent : forall pweight canon glob_ok env prefix
+    (before1 before2 after1 after2 : list (list reg)) regs,
+  nth_error (history_texts pweight canon glob_ok env prefix (before1 ++ regs :: after1)) (length before1)
+  = nth_error (history_texts pweight canon glob_ok env prefix (before2 ++ regs :: after2)) (length before2).
+Proof. exact history_independent. Qed.
+Print Assumptions C14_history_independent.
+
+Theorem C14_history_rounds_accepted : forall pweight canon glob_ok env prefix (rounds : list (list reg)),
+  Forall (fun text => exists t, new_table pweight canon glob_ok text = Ok t)
+         (history_texts pweight canon glob_ok env prefix rounds).
+Proof. exact history_rounds_accepted. Qed.
+Print Assumptions C14_history_rounds_accepted.
+
+(* The parser is line-local: a list of lines is accepted iff every line is ... *)
+Theorem C14_parse_lines_independent : forall pweight ls,
+  is_ok (parse_lines pweight ls) = forallb (line_ok pweight) ls.
+Proof. exact parse_lines_independent. Qed.
+Print Assumptions C14_parse_lines_independent.
+
+(* ... so one rejected line rejects the whole text, whatever the other lines are (which is why
+   build has to filter). *)
+Theorem C14_one_bad_line_rejects_all : forall pweight a l b,
+  line_ok pweight l = false -> is_ok (parse_lines pweight (a ++ l :: b)) = false.
+Proof. exact one_bad_line_rejects_all. Qed.
+Print Assumptions C14_one_bad_line_rejects_all.
+
+(* ---------------- on the expressible domain ---------------- *)
+
+(* An expressible registration is never dropped ... *)
+Theorem C14_expressible_validates : forall pweight canon glob_ok i,
+  intent_expressible pweight canon glob_ok i = true -> validate pweight canon glob_ok (render_intent i) = true.
+Proof. exact expressible_validates. Qed.
+Print Assumptions C14_expressible_validates.
+
+(* ... and, character level, full strength: every routing tag of an expressible entry yields a
+   command, route.Parse accepts it as exactly one 'route add' definition, and that definition says
+   what the entry says: service, source, destination, weight, tags, options. *)
+Theorem C14_build_parse_denotes : forall pweight canon glob_ok env prefix g,
+  expressible pweight canon glob_ok env prefix g = true ->
+  Forall (fun i => In (render_intent i) (build pweight canon glob_ok env prefix g)
+                /\ exists d, parse pweight (render_intent i) = Ok [d]
                     /\ intent_def pweight i = Ok d
                     /\ d_cmd d = CmdAdd /\ d_svc d = g_name g /\ d_src d = i_route i /\ d_dst d = i_dst i
                     /\ parse_weight pweight (Some (i_weight i)) = Ok (d_w d)
@@ -33,71 +110,14 @@ Theorem C14_build_parse_denotes : forall isprint pweight canon glob_ok env prefi
 Proof. exact build_parse_denotes. Qed.
 Print Assumptions C14_build_parse_denotes.
 
-(* The parser is line-local: a list of lines is accepted iff every line is ... *)
-Theorem C14_parse_lines_independent : forall pweight ls,
-  is_ok (parse_lines pweight ls) = forallb (line_ok pweight) ls.
-Proof. exact parse_lines_independent. Qed.
-Print Assumptions C14_parse_lines_independent.
-
-(* ... so one rejected line rejects the whole text, whatever the other lines are. *)
-Theorem C14_one_bad_line_rejects_all : forall pweight a l b,
-  line_ok pweight l = false -> is_ok (parse_lines pweight (a ++ l :: b)) = false.
-Proof. exact one_bad_line_rejects_all. Qed.
-Print Assumptions C14_one_bad_line_rejects_all.
-
-(* (2) is FALSE of the code (finding F-C14-1, region F_C14_blocking): the well-formed service alone
-   gets its route; beside one entry with a tag containing a double quote, with weight=abc, or with
-   a space in its name, NewTable rejects the whole text and no service gets a route. *)
-Theorem C14_bad_registration_blocks_all_refuted :
-  ex_expressible reg_good = true
-  /\ (exists t, ex_table [reg_good] = Ok t /\ length (flat t) = 1%nat)
-  /\ existsb (F_C14_blocking pweight_dec idcanon anyglob) (ex_intents reg_quote) = true
-  /\ ex_table [reg_good; reg_quote] = Err e_add_invalid
-  /\ existsb (F_C14_blocking pweight_dec idcanon anyglob) (ex_intents reg_weight_abc) = true
-  /\ ex_table [reg_good; reg_weight_abc] = Err e_weight_value
-  /\ existsb (F_C14_blocking pweight_dec idcanon anyglob) (ex_intents reg_name_space) = true
-  /\ ex_table [reg_good; reg_name_space] = Err e_add_invalid.
-Proof. exact bad_registration_blocks_all_refuted. Qed.
-Print Assumptions C14_bad_registration_blocks_all_refuted.
-
-Theorem C14_independent_of_other_registrations_refuted :
-  ~ (forall regs g, In g regs -> ex_expressible g = true -> exists t, ex_table regs = Ok t).
-Proof. exact independent_of_other_registrations_refuted. Qed.
-Print Assumptions C14_independent_of_other_registrations_refuted.
-
-(* (1) outside the domain (finding F-C14-2, region F_C14_altering): accepted, but other tags. *)
-Theorem C14_backslash_tag_altered_refuted :
-  svc_tags pfx reg_backslash = [bs "a\b"]
-  /\ ex_parsed_tags reg_backslash = Ok [[bs "a\\b"]]
-  /\ existsb (F_C14_altering all_print pweight_dec idcanon anyglob) (ex_intents reg_backslash) = true
-  /\ exists t, ex_table [reg_good; reg_backslash] = Ok t
-       /\ map (fun x => t_tags (snd x)) (flat t) = [[bs "blue"]; [bs "a\\b"]].
-Proof. exact backslash_tag_altered_refuted. Qed.
-Print Assumptions C14_backslash_tag_altered_refuted.
-
-Theorem C14_comma_tag_split_refuted :
-  svc_tags pfx reg_comma = [bs "a,b"]
-  /\ ex_parsed_tags reg_comma = Ok [[bs "a"; bs "b"]]
-  /\ existsb (F_C14_altering all_print pweight_dec idcanon anyglob) (ex_intents reg_comma) = true.
-Proof. exact comma_tag_split_refuted. Qed.
-Print Assumptions C14_comma_tag_split_refuted.
-
-Theorem C14_control_byte_tag_altered_refuted :
-  svc_tags pfx reg_ctrl = [[97; 1; 98]]
-  /\ ex_parsed_tags reg_ctrl = Ok [[bs "a\x01b"]]
-  /\ existsb (F_C14_altering all_print pweight_dec idcanon anyglob) (ex_intents reg_ctrl) = true.
-Proof. exact control_byte_tag_altered_refuted. Qed.
-Print Assumptions C14_control_byte_tag_altered_refuted.
-
-(* (2) on the domain: when every entry is expressible, the text exactly as makeConfig assembles it
-   (all commands, reverse-sorted, newline-joined) is accepted by NewTable; the table holds, under
-   (lower-cased host, path), a target with the service, URL, weight and tags of every routing tag
-   of every entry (the options too unless an identical target absorbed it, C05_add_accumulates),
-   and holds nothing that no entry asked for. *)
-Theorem C14_registrations_on_domain : forall isprint pweight canon glob_ok env prefix regs,
-  (forall g, In g regs -> expressible isprint pweight canon glob_ok env prefix g = true) ->
+(* When every entry is expressible, the text exactly as makeConfig assembles it is accepted; the
+   table holds, under (lower-cased host, path), a target with the service, URL, weight and tags of
+   every routing tag of every entry (the options too unless an identical target absorbed it,
+   C05_add_accumulates), and holds nothing that no entry asked for. *)
+Theorem C14_registrations_on_domain : forall pweight canon glob_ok env prefix regs,
+  (forall g, In g regs -> expressible pweight canon glob_ok env prefix g = true) ->
   exists t, new_table pweight canon glob_ok
-              (config_text (sort_lines_desc (flat_map (build isprint env prefix) regs))) = Ok t
+              (config_text (sort_lines_desc (flat_map (build pweight canon glob_ok env prefix) regs))) = Ok t
     /\ (forall g i, In g regs -> In i (intents env prefix g) ->
           exists d url tg, intent_def pweight i = Ok d /\ canon (i_dst i) = Some url
            /\ In (lower (fst (hostpath (i_route i))), snd (hostpath (i_route i)), tg) (flat t)
@@ -108,9 +128,9 @@ Proof. exact registrations_on_domain. Qed.
 Print Assumptions C14_registrations_on_domain.
 
 (* the same for any order of the lines *)
-Theorem C14_table_on_domain : forall isprint pweight canon glob_ok (is : list intent),
-  Forall (fun i => intent_expressible isprint pweight canon glob_ok i = true) is ->
-  exists t, new_table pweight canon glob_ok (config_text (map (render_intent isprint) is)) = Ok t
+Theorem C14_table_on_domain : forall pweight canon glob_ok (is : list intent),
+  Forall (fun i => intent_expressible pweight canon glob_ok i = true) is ->
+  exists t, new_table pweight canon glob_ok (config_text (map render_intent is)) = Ok t
     /\ (forall i, In i is -> exists d url tg, intent_def pweight i = Ok d /\ canon (i_dst i) = Some url
            /\ In (lower (fst (hostpath (i_route i))), snd (hostpath (i_route i)), tg) (flat t)
            /\ same_target (i_svc i) url (w_clamp (d_w d)) (i_tags i) tg = true)
@@ -119,15 +139,8 @@ Theorem C14_table_on_domain : forall isprint pweight canon glob_ok (is : list in
 Proof. exact table_on_domain. Qed.
 Print Assumptions C14_table_on_domain.
 
-(* the domain is wide: all printable ASCII except the double quote and the backslash is left alone
-   by strconv.Quote ... *)
-Theorem C14_quote_stable_plain : forall isprint s,
-  forallb plain s = true -> quote_stable isprint s = true.
-Proof. exact quote_stable_plain. Qed.
-Print Assumptions C14_quote_stable_plain.
-
-(* ... and non-vacuous: an entry with an IPv6 address, $DC expansion, an upper-case host, proto=,
-   weight=, passed-through options, a host:port and a :port route and tags with an inner space is
+(* non-vacuous: an entry with an IPv6 address, $DC expansion, an upper-case host, proto=, weight=,
+   passed-through options, a host:port and a :port route and tags with an inner space is
    expressible; its commands and the table built beside another service are as expected. *)
 Theorem C14_expressible_nonvacuous :
   ex_expressible reg_good = true /\ ex_expressible reg_rich = true
@@ -140,12 +153,91 @@ Theorem C14_expressible_nonvacuous :
 Proof. exact expressible_nonvacuous. Qed.
 Print Assumptions C14_expressible_nonvacuous.
 
-(* F-C14-1 once more, since /repo c9fb527: a routing tag whose (lower-cased) host does not compile
-   as a glob is rejected by addRoute and takes the whole text with it. *)
-Theorem C14_bad_host_blocks_all_refuted :
-  expressible all_print pweight_dec idcanon ex_glob env_dc pfx reg_good = true
-  /\ existsb (F_C14_blocking pweight_dec idcanon ex_glob) (ex_intents reg_bad_host) = true
-  /\ new_table pweight_dec idcanon ex_glob (ex_text [reg_good; reg_bad_host]) = Err e_invalid_host
-  /\ exists t, new_table pweight_dec idcanon ex_glob (ex_text [reg_good]) = Ok t /\ length (flat t) = 1%nat.
-Proof. exact bad_host_blocks_all_refuted. Qed.
-Print Assumptions C14_bad_host_blocks_all_refuted.
+(* the entries that used to block every service are dropped on their own: a tag with a double
+   quote, weight=abc, a name with a space, a host that is no glob; of an entry with one good and
+   one bad routing tag only the bad command is dropped; the table of the others is built *)
+Theorem C14_bad_registration_dropped_alone :
+  ex_build reg_quote = [] /\ ex_build reg_weight_abc = [] /\ ex_build reg_name_space = []
+  /\ new_table pweight_dec idcanon ex_glob
+       (config_text (sort_lines_desc (flat_map (build pweight_dec idcanon ex_glob env_dc pfx) [reg_good; reg_bad_host])))
+     = new_table pweight_dec idcanon ex_glob (ex_text [reg_good])
+  /\ ex_build reg_half = [bs "route add half /ok http://10.0.0.2:80/"]
+  /\ ex_table [reg_quote; reg_good; reg_weight_abc; reg_name_space; reg_half] = ex_table [reg_good; reg_half]
+  /\ exists t, ex_table [reg_good; reg_half] = Ok t /\ length (flat t) = 2%nat.
+Proof. exact bad_registration_dropped_alone. Qed.
+Print Assumptions C14_bad_registration_dropped_alone.
+
+(* a backslash and a control byte now come back as registered *)
+Theorem C14_backslash_control_tags_roundtrip :
+  ex_expressible reg_backslash = true /\ ex_parsed_tags reg_backslash = Ok [[bs "a\b"]]
+  /\ ex_expressible reg_ctrl = true /\ ex_parsed_tags reg_ctrl = Ok [[[97; 1; 98]]].
+Proof. exact backslash_control_tags_roundtrip. Qed.
+Print Assumptions C14_backslash_control_tags_roundtrip.
+
+(* ---------------- off the domain: what is left of F-C14-2 (region F_C14_altering) ---------------- *)
+Theorem C14_comma_tag_split_refuted :
+  svc_tags pfx reg_comma = [bs "a,b"]
+  /\ ex_parsed_tags reg_comma = Ok [[bs "a"; bs "b"]]
+  /\ existsb ex_altering (ex_intents reg_comma) = true.
+Proof. exact comma_tag_split_refuted. Qed.
+Print Assumptions C14_comma_tag_split_refuted.
+
+Theorem C14_sole_empty_tag_lost_refuted :
+  svc_tags pfx reg_empty_tag = [[]]
+  /\ ex_parsed_tags reg_empty_tag = Ok [[]]
+  /\ existsb ex_altering (ex_intents reg_empty_tag) = true.
+Proof. exact sole_empty_tag_lost_refuted. Qed.
+Print Assumptions C14_sole_empty_tag_lost_refuted.
+
+Theorem C14_name_blank_altered_refuted :
+  g_name reg_name_blank = bs "svc "
+  /\ (match ex_build reg_name_blank with
+      | [c] => match parse pweight_dec c with Ok ds => Ok (map d_svc ds) | Err k => Err k | Panic => Panic end
+      | _ => Err 0
+      end) = Ok [bs "svc"]
+  /\ existsb ex_altering (ex_intents reg_name_blank) = true.
+Proof. exact name_blank_altered_refuted. Qed.
+Print Assumptions C14_name_blank_altered_refuted.
+
+(* ---------------- the code before d16ce3d (F-C14-1, and the wider F-C14-2), kept as refuted variants ---------------- *)
+Theorem C14_bad_registration_blocks_all_unrepaired_refuted :
+  ex_expressible reg_good = true
+  /\ (exists t, ex_table_unrepaired [reg_good] = Ok t /\ length (flat t) = 1%nat)
+  /\ existsb ex_blocking (ex_intents reg_quote) = true
+  /\ ex_table_unrepaired [reg_good; reg_quote] = Err e_add_invalid
+  /\ existsb ex_blocking (ex_intents reg_weight_abc) = true
+  /\ ex_table_unrepaired [reg_good; reg_weight_abc] = Err e_weight_value
+  /\ existsb ex_blocking (ex_intents reg_name_space) = true
+  /\ ex_table_unrepaired [reg_good; reg_name_space] = Err e_add_invalid.
+Proof. exact bad_registration_blocks_all_unrepaired_refuted. Qed.
+Print Assumptions C14_bad_registration_blocks_all_unrepaired_refuted.
+
+Theorem C14_independent_of_other_registrations_unrepaired_refuted :
+  ~ (forall regs g, In g regs -> ex_expressible g = true -> exists t, ex_table_unrepaired regs = Ok t).
+Proof. exact independent_of_other_registrations_unrepaired_refuted. Qed.
+Print Assumptions C14_independent_of_other_registrations_unrepaired_refuted.
+
+Theorem C14_bad_host_blocks_all_unrepaired_refuted :
+  existsb (F_C14_blocking pweight_dec idcanon ex_glob) (ex_intents reg_bad_host) = true
+  /\ new_table pweight_dec idcanon ex_glob (ex_text_unrepaired [reg_good; reg_bad_host]) = Err e_invalid_host.
+Proof. exact bad_host_blocks_all_unrepaired_refuted. Qed.
+Print Assumptions C14_bad_host_blocks_all_unrepaired_refuted.
+
+Theorem C14_backslash_tag_altered_unrepaired_refuted :
+  svc_tags pfx reg_backslash = [bs "a\b"]
+  /\ ex_parsed_tags_unrepaired reg_backslash = Ok [[bs "a\\b"]]
+  /\ existsb (F_C14_altering_unrepaired all_print pweight_dec idcanon anyglob) (ex_intents reg_backslash) = true.
+Proof. exact backslash_tag_altered_unrepaired_refuted. Qed.
+Print Assumptions C14_backslash_tag_altered_unrepaired_refuted.
+
+Theorem C14_control_byte_tag_altered_unrepaired_refuted :
+  svc_tags pfx reg_ctrl = [[97; 1; 98]]
+  /\ ex_parsed_tags_unrepaired reg_ctrl = Ok [[bs "a\x01b"]]
+  /\ existsb (F_C14_altering_unrepaired all_print pweight_dec idcanon anyglob) (ex_intents reg_ctrl) = true.
+Proof. exact control_byte_tag_altered_unrepaired_refuted. Qed.
+Print Assumptions C14_control_byte_tag_altered_unrepaired_refuted.
+
+Theorem C14_quote_stable_plain : forall isprint s,
+  forallb plain s = true -> quote_stable isprint s = true.
+Proof. exact quote_stable_plain. Qed.
+Print Assumptions C14_quote_stable_plain.
